@@ -16,8 +16,8 @@ PROPS = {
         suites=[80],
         design_ref="DESIGN.md section 5, C08",
         rule=("suite 80: complete in-order Block2 transfers: the generator plays the client against the implementation (requests recorded, then replayed on implementation and model): every body length 0..3*sz+1 for block sizes 16, 32, 64 (thorough: all of 16..1024) at the budget that picks that size, "
-              "boundary lengths for the larger sizes, the same with early negotiation (Block2 in the first request), bodies of 5000 and 20000 bytes, and 500 (thorough 20000) random transfers over body lengths, budgets 60..1280, client preference none / szx 0..6, mid-transfer size reduction, token length 0..8, seven application option sets (incl. repeatable options with byte-identical values, empty values, option numbers on both sides of Block2 and above 268; the budget is raised to the option set's overhead + 28 so that every case stays inside the property's domain); "
-              "verdict from the responses alone: payloads concatenate to the body, non-final blocks are full with the more flag, numbers match offsets, every block repeats the application's options, the application ran exactly once, follow-ups were answered by the handler, the cache entry is gone after the final block; class 1 empty body / 2 unfragmented / 3 fragmented / 4 fragmented with early negotiation; distinct = distinct input"),
+              "boundary lengths for the larger sizes, the same with early negotiation (Block2 in the first request), bodies of 5000 and 20000 bytes, two consecutive transfers on one key, 200 (thorough 2000) transfers abandoned midway followed by a new transfer without Block2, and 500 (thorough 20000) random transfers over body lengths, budgets 60..1280, client preference none / szx 0..6, mid-transfer size reduction, token length 0..8, seven application option sets (incl. repeatable options with byte-identical values, empty values, option numbers on both sides of Block2 and above 268; the budget is raised to the option set's overhead + 28 so that every case stays inside the property's domain); "
+              "verdict from the responses alone: a response never carries more payload than the size the request named, payloads concatenate to the body, non-final blocks are full with the more flag, numbers match offsets, every block repeats the application's options, the application ran exactly once, follow-ups were answered by the handler, the cache entry is gone after the final block; class 1 empty body / 2 unfragmented / 3 fragmented / 4 fragmented with early negotiation; distinct = distinct input"),
         level_text=("Theorems: C08_block_served (for every body incl. the empty one, block number and size: the served payload is bytes [num*size, num*size+size) of the cached body, the more flag is set iff bytes remain, on a copy of the application's version/type/code/options), "
                     "C08_chunks_reassemble / _from (for every body and block size the chunks taken in order concatenate to the body: induction on the remaining length), C08_followup_from_cache (a follow-up block is answered from the cache without consulting the application and the entry is released exactly when the served block is the last), "
                     "C08_followups_served (a whole run of follow-ups k, k+1, ... up to the one covering the end of the body, any number of them: all answered from the cache, payloads exactly the chunks of the body from offset k*size, entry released afterwards -- with C08_chunks_reassemble the client's concatenation is the body)."),
@@ -28,7 +28,7 @@ PROPS = {
         suites=[90],
         design_ref="DESIGN.md section 5, C09",
         rule=("suite 90: uploads of bodies 0..5000 bytes (every length 0..49 at 16-byte blocks, lengths around block multiples for szx 0..6) with blocks in order, one block repeated 1..3 times, optionally after an abandoned prefix (1..6 blocks) of another body at the same or another block size to the same resource; "
-              "the final block delivered twice (known finding D11); 300 (thorough 3000) requests larger than the budget without Block1; verdict: every non-final block answered 2.31 with Block1 echoing the offset and a size <= the client's, application not reached; final block reaches the application exactly once with exactly the body; 4.13 with a power-of-two size hint; "
+              "the final block delivered twice (known finding D11); methods POST, PUT, FETCH, PATCH, iPATCH in rotation; 300 (thorough 3000) requests larger than the budget without Block1, and 200 (thorough 2000) of them after an abandoned upload or an earlier refusal on the same resource with shorter options; verdict: every non-final block answered 2.31 with Block1 echoing the offset and a size <= the client's, application not reached; final block reaches the application exactly once with exactly the body; 4.13 with a power-of-two size hint; "
               "class 1 plain / 2 after an abandoned upload / 3 too large; distinct = distinct input"),
         level_text=("Theorems: C09_splice_extends_prefix (whatever the buffer holds beyond it: once the buffer agrees with the body up to a block's offset, splicing the block in extends the agreement -- so in-order delivery with repeats reconstructs the prefix), C09_final_block_body (the body handed over at the final block is exactly the body sent), "
                     "C09_block_answer (2.31 Continue + negotiated Block1 without reaching the application for non-final blocks; hand-over with Block1 on the response for the final one), C09_too_large (4.13 with Block1 num 0, more set), C09_upload_delivers_body (the buffer handling over a whole in-order upload at any block size, on top of ANY stale buffer, yields exactly the body) and "
@@ -39,8 +39,8 @@ PROPS = {
     "C10": dict(
         suites=[100],
         design_ref="DESIGN.md section 5, C10",
-        rule=("suite 100: 2500 (thorough 60000) first exchanges and short transfers with the budget aimed at bands around overhead + 12 + 2^k, overhead + 28 .. +35, 1277..1280 and random values; overhead varied through token length 0..8, path length 0..100, Uri-Query options and four application option sets; client szx 0..7 or none; uploads with szx 0..6; 400 (thorough 6000) uploads whose final block also names a Block2 size for a large reply; "
-              "verdict: inside the property's domain (overhead + 28 <= M <= 1280, no Block2 set by the application) every handler-produced message encodes within M, every chosen size is a power of two in 16..1024, not above the client's, and exactly the client's when the message overhead + that size + 32 fits the budget; outside only 'no panic'; class 1 in / 2 outside the domain; distinct = distinct input"),
+        rule=("suite 100: 2500 (thorough 60000) first exchanges and short transfers with the budget aimed at bands around overhead + 12 + 2^k, overhead + 28 .. +35, 1277..1280 and random values; overhead varied through token length 0..8, path length 0..100, Uri-Query options and four application option sets; client szx 0..7 or none; uploads with szx 0..6; 400 (thorough 6000) uploads whose final block also names a Block2 size for a large reply; 400 (thorough 6000) single-block uploads at size exponents 2..7; "
+              "verdict: inside the property's domain (overhead + 28 <= M <= 1280, no Block2 set by the application) every handler-produced message encodes within M, every chosen size is a power of two in 16..1024, not above the client's, exactly the client's when the message overhead + that size + 32 fits the budget, and an acknowledged upload size + request overhead + 12 is within the budget; outside only 'no panic'; class 1 in / 2 outside the domain; distinct = distinct input"),
         level_text=("Theorem C10_chosen_size: for every budget with overhead + 28 <= M <= 1280, whenever negotiate returns a block it has size 2^(k+4), k <= 6, at most M - overhead - 12 (room for the block plus the 12-byte block-option allowance), never above the client's size, and exactly the client's when that fits with 32 bytes to spare. C10_overhead_measured (the size the handler measures is the RFC wire length), C10_insertion (inserting one option with number <= 268 and a value of <= 12 bytes into any ascending option sequence "
                     "lengthens the wire image by at most 2 + its length: the successor's delta only shrinks), C10_fragment_fits (for every well-formed application response without Block2 and every budget in the domain, the first fragment the handler builds -- options + Block2 + marker + chunk -- has wire length <= M and payload <= the chosen size)."),
         level_note=COMMON_BLOCK_NOTE + " C10_fragment_fits is proved for the first fragment of a response (intercept_response); follow-up fragments from the cache and Block1 answers are decided by the suite's length oracle on every produced message.",
@@ -181,7 +181,7 @@ PROPS = {
         exhaustive=True,
         rule=("suite 50, exhaustive: every 16-bit option number and content-format id (plus ids 65536, 2^32, 2^63, usize::MAX) through From/TryFrom both ways, every named option / content format / request type / response type through "
               "name->number->name, all 256 code bytes through From<u8>, Into<u8>, Display, Header::set_code/get_code and the packet codec, the UnKnown/Reserved(b) forms, all 256 first header bytes x 4 set_type and x 256 set_version, "
-              "is_error for all 28 ResponseType values, observe values 0..299; verdict computed from Registry.v only; class = kind of conversion; non-trivial = inside the finite domain; distinct = distinct input"),
+              "is_error for all 28 ResponseType values, CoapResponse::get_status and CoapRequest::get_method for all 256 code bytes, the UnKnown forms and every Reserved(b), observe values 0..299; verdict computed from Registry.v only; class = kind of conversion; non-trivial = inside the finite domain; distinct = distinct input"),
         level_text=("Finite domains decided completely inside Coq (forallb over the whole range by vm_compute, lifted with forallb_forall; every statement carries its bound): the crate's tables equal the independently transcribed IANA/RFC "
                     "registries for all 65536 option numbers and content-format ids, all 256 codes, 4 types, observe values; number->name->number and name->number->name are identities; unassigned numbers map to Unknown/None/Reserved; "
                     "the dotted code text prints and parses back for all 256 codes; is_error s <-> byte >= 0x80; header getters/setters touch exactly their bit field. C05_model_passes_oracle: the model meets the registry-only oracle on the whole domain."),
@@ -235,8 +235,8 @@ PROPS = {
         translator="unsafe_sites.py",
         design_ref="DESIGN.md section 5, C04",
         rule=("suite 40: (message, entry point, limit) triples; messages constructed to land on limit-2..limit+2 via payload, via option bytes and via both, limits {0,3,4,5,6,17,64,255,256,1279,1280,1281,64000,64001,random}, "
-              "default entry point around MAX_SIZE (read from the build: 1280 / 64000 with udp) for every token length, 0.00 messages with unsent payloads, option values of 65803..131342 bytes, random messages x random limits; "
-              "classes 1 fits / 2 exactly at limit / 3 one over / 4 further over / 5 unlimited / 6 over-long value; non-trivial = API-buildable state; distinct = distinct input"),
+              "default entry point around MAX_SIZE (read from the build: 1280 / 64000 with udp) for every token length, 0.00 messages with unsent payloads, option values of 65803..131342 bytes, 160 packets whose header token-length nibble differs from the token's length (outside the exact-length clause; they exercise the copies), random messages x random limits; "
+              "classes 0 inconsistent header (only 'no crash' and agreement with the model) / 1 fits / 2 exactly at limit / 3 one over / 4 further over / 5 unlimited / 6 over-long value; non-trivial = API-buildable state; distinct = distinct input"),
         level_text=("Theorem C04_limit_exact: for every well-formed state and every limit, to_bytes_internal returns the wire image iff wire_len <= limit and InvalidPacketLength otherwise; C04_length: the image has exactly wire_len bytes "
                     "(4 + token + options + marker/payload when sent); C04_oversize_value_refused; C04_no_panic; C04_model_passes_oracle (the model satisfies the suite-40 oracle for every packet state with an ordered option map -- values of any length --, entry point and limit). Unbounded over messages and limits. "
                     "Memory clause: C04_unsafe_sites_in_bounds -- the three unsafe blocks of to_bytes_internal are re-extracted from /repo/src/packet.rs on every run (tools/unsafe_sites.py -> coq/gen/UnsafeSites.v: reserve amount, ptr::copy offsets and lengths, set_len, as sums of length symbols) "
